@@ -467,7 +467,10 @@ def restore_checkpoint(path: str, model: nnx.Module) -> nnx.Module:
     """
     import orbax.checkpoint as ocp
 
-    checkpointer = ocp.PyTreeCheckpointer()
-    state = checkpointer.restore(path)
-    graphdef, _ = nnx.split(model)
+    # Restore into the structure of the template's state: without a target the
+    # entries of layer lists come back keyed by strings, i.e. ordered '0', '1',
+    # '10', '11', '2', ..., and would be merged into the wrong layers.
+    graphdef, template_state = nnx.split(model)
+    checkpointer = ocp.StandardCheckpointer()
+    state = checkpointer.restore(path, template_state)
     return nnx.merge(graphdef, state)
